@@ -10,7 +10,7 @@ import (
 // C01 — honest issuance over the wire always yields a valid, correctly bound token.
 type c01 struct{ base }
 
-func init() { core.Register(c01{base{"C01", "exploration", 320, 9000}}) }
+func init() { core.Register(c01{base{"C01", "exploration", 3000, 120000}}) }
 
 func (c01) Describe() core.Description {
 	return core.Description{
